@@ -52,6 +52,8 @@ mod bindgroup;
 mod consts;
 mod entry;
 mod structs;
+#[cfg(feature = "verif")]
+pub mod verif;
 mod wgsl;
 
 pub use naga::valid::Capabilities as WgslCapabilities;
@@ -314,6 +316,8 @@ fn create_shader_module_inner(
 ) -> Result<String, CreateModuleError> {
     let module = naga::front::wgsl::parse_str(wgsl_source)
         .map_err(|error| CreateModuleError::ParseError { error })?;
+    #[cfg(feature = "verif")]
+    verif::sync("parsed");
 
     if let Some(options) = options.validate.as_ref() {
         naga::valid::Validator::new(ValidationFlags::all(), options.capabilities)
@@ -321,13 +325,21 @@ fn create_shader_module_inner(
             .map_err(|error| CreateModuleError::ValidationError { error })?;
     }
 
+    #[cfg(feature = "verif")]
+    verif::sync("validated");
     let bind_group_data = get_bind_group_data(&module)?;
+    #[cfg(feature = "verif")]
+    verif::sync("bind_group_data");
 
     let global_stages = wgsl::global_shader_stages(&module);
     let entry_stages = wgsl::entry_stages(&module);
+    #[cfg(feature = "verif")]
+    verif::sync("stages");
 
     // Write all the structs, including uniforms and entry function inputs.
     let structs = structs::structs(&module, options);
+    #[cfg(feature = "verif")]
+    verif::sync("structs");
     let consts = consts::consts(&module);
     let bind_groups_module = bind_groups_module(&bind_group_data, &global_stages);
     let vertex_module = vertex_struct_methods(&module);
@@ -398,6 +410,8 @@ fn create_shader_module_inner(
         #create_pipeline_layout
     };
 
+    #[cfg(feature = "verif")]
+    verif::sync("assembled");
     if options.rustfmt {
         Ok(pretty_print_rustfmt(output))
     } else {
@@ -457,14 +471,28 @@ fn pretty_print_rustfmt(tokens: TokenStream) -> String {
         .stderr(Stdio::null())
         .spawn()
     {
+        #[cfg(feature = "verif")]
+        verif::sync("fmt.spawned");
         let stdin = proc.stdin.as_mut().unwrap();
         stdin.write_all(value.as_bytes()).unwrap();
+        #[cfg(feature = "verif")]
+        verif::sync("fmt.written");
 
         let output = proc.wait_with_output().unwrap();
+        #[cfg(feature = "verif")]
+        verif::emit(format!(
+            "{{\"ev\":\"fmt.wait\",\"success\":{},\"stdout_len\":{}}}",
+            output.status.success(),
+            output.stdout.len()
+        ));
         if output.status.success() {
+            #[cfg(feature = "verif")]
+            verif::sync("fmt.formatted");
             return String::from_utf8(output.stdout).unwrap();
         }
     }
+    #[cfg(feature = "verif")]
+    verif::sync("fmt.fallback");
     value.to_string()
 }
 
